@@ -615,6 +615,12 @@ func (p *Parser) parseIncludeDirective(startPos Position) ast.Directive {
 		path.WriteString(p.current.Value)
 		p.advance()
 	}
+	// the path is the text as written, blanks between its words included (the
+	// tokens it was cut into do not carry them): '2024 bank statements.journal'
+	if input := p.lexer.input; pathStart.Offset <= p.current.Pos.Offset && p.current.Pos.Offset <= len(input) {
+		path.Reset()
+		path.WriteString(input[pathStart.Offset:p.current.Pos.Offset])
+	}
 	// the path ends where its text ends: blanks before a comment or the line end
 	// are not part of it
 	written := strings.TrimRight(path.String(), " \t")
